@@ -3,8 +3,7 @@
    [check] follows user-function calls and the literals consumed by if$ / while$; it is a plain
    computable function, so "this program is well-typed" is decided by evaluation.
    Not accepted (the checker answers None): call.type$ (which function runs depends on the database),
-   top$/stack$/int.to.str$ on anything but integers and strings, mixed-kind comparisons,
-   int.to.chr$ of anything but a literal in 0..0x10FFFF. *)
+   top$/stack$/int.to.str$ on anything but integers and strings, mixed-kind comparisons. *)
 From Pybtex Require Import Base.Prelude Base.PyChar Base.PyStr Model.BibtexStr Model.Wrap Model.Bst.
 Local Open Scope Z_scope.
 
@@ -71,7 +70,7 @@ Section Check.
         | _, _ => None
         end
       else None
-    | B_int_to_chr, AIntK z :: r => if (0 <=? z) && (z <=? 1114111) then Some (AStr :: r) else None
+    | B_int_to_chr, x :: r => if is_aint x then Some (AStr :: r) else None
     | B_int_to_str, x :: r => if is_aint x then Some (AStr :: r) else None
     | B_missing, x :: r => if is_astr x then Some (AInt :: r) else None
     | B_newline, r => Some r
